@@ -95,7 +95,7 @@ def _registry():
         reg(M + fn, ext, res='bool')
 
     reg(C + 'convolve', lambda g, nd: ([g.fl(g.shape(nd, 2)), g.fl(tuple(g.r.randint(1, 3) for _ in range(nd)), 0, 3)], {}))
-    reg(C + 'convolve1d', lambda g, nd: ([g.fl(g.shape(nd, 4)), g.fl((g.r.choice([2, 3]),), 0, 3), g.r.randrange(nd)], {}), flow=None)
+    reg(C + 'convolve1d', lambda g, nd: ([g.fl(g.shape(nd, 4)), g.fl((g.r.choice([2, 3]),), 0, 3), g.r.randrange(nd)], {}), flow='convolve1d')
 
     def filt(g, nd):
         return [g.img(g.shape(nd, 2), g.r.choice([np.uint8, np.int32, np.float64])), g.bc(nd)], {}
@@ -114,7 +114,7 @@ def _registry():
     reg(I + 'spline_filter1d', lambda g, nd: ([g.fl(g.shape(nd, 4)), 3, g.r.randrange(nd)], {}), res='float64')
     reg(I + 'spline_filter', lambda g, nd: ([g.fl(g.shape(nd, 4))], {}), res='float64')
     reg(I + 'shift', lambda g, nd: ([g.fl(g.shape(nd, 4)), [0.5] * nd], {}), res='float64')
-    reg(I + 'zoom', lambda g, nd: ([g.fl(g.shape(nd, 4)), 1.5], {}), flow=None, req=('contig',), res=None)
+    reg(I + 'zoom', lambda g, nd: ([g.fl(g.shape(nd, 4)), 1.5], {}), flow='zoom', req=('contig',), res=None)
     reg('mahotas.features.texture.cooccurence', lambda g, nd: ([g.u8(g.shape(2, 3), 4), 0], {}), dims=(2,), flow=None,
         req=('dtype',), res=None)
     return REG
@@ -299,19 +299,30 @@ def _eval_out(cases):
         flow = e['flow']
         line = 'ping'
         if flow in ('kernel', 'label', 'open', 'close', 'cerode', 'subm', 'tophat_open', 'tophat_close', 'gaussian', 'gaussian1d'):
-            fl = {'label': 'kernel', 'gaussian1d': 'kernel'}.get(flow, flow)
+            fl = {'label': 'kernel'}.get(flow, flow)
+            if flow in ('open', 'close') and case['param'] == 'output':
+                fl = flow + '_alias'        # the deprecated alias, forwarded since 399d97f
             a_for = np.empty(inp.shape, b0.dtype)
             line = f"c09 kind=flow fn={fl} {_desc('a', a_for)} {_desc('o', out)} dt={dtcode(b0.dtype)}"
+        elif flow == 'convolve1d':
+            w, axis = np.atleast_1d(np.asanyarray(args[1]).squeeze()), args[2] % inp.ndim
+            fast = bool(inp.flags.contiguous and len(w) < inp.shape[axis])
+            a_for = np.empty(inp.shape, b0.dtype)
+            line = (f"c09 kind=flow fn=convolve1d fast={int(fast)} last={int(axis == inp.ndim - 1)} {_desc('a', a_for)} "
+                    f"{_desc('o', out)} dt={dtcode(b0.dtype)}")
+        elif flow == 'zoom':
+            a_for = np.empty(inp.shape, np.float64)
+            line = (f"c09 kind=flow fn=zoom {_desc('a', a_for)} {_desc('o', out)} owrite={int(out.flags.writeable)} "
+                    f"zshape={gen.enc_shape(b0.shape)}")
         elif flow == 'hitmiss':
             a_for = np.empty(inp.shape, np.uint8 if inp.dtype == bool else inp.dtype)
             line = f"c09 kind=hitmiss {_desc('a', a_for)} {_desc('o', out)}"
         lines.append(line)
         prepared.append((case, e, f, None, (args, kwargs, base, b0), (out, valid), arr_desc))
     drvs = core.drive(lines)
-    if any(l.startswith('c09 kind=flow fn=gaussian ') for l in lines):
-        pinned = core.drive([l.replace('fn=gaussian ', 'fn=gaussian_pinned ') if l.startswith('c09 kind=flow fn=gaussian ') else 'ping' for l in lines])
-    else:
-        pinned = [None] * len(lines)
+    # Round 2: gaussian_filter is repaired (bc1f729) — only the conforming ping-pong `gaussRepairedP` is accepted; the
+    # pinned flow (`gaussian_pinned`) is kept in Lean as history and no longer excuses a disagreement
+    pinned = [None] * len(lines)
     res = []
     for (case, e, f, skip, call, ob, arr_desc), drv, pin in zip(prepared, drvs, pinned):
         param, variant = case['param'], case['variant']
@@ -365,7 +376,7 @@ def _eval_out(cases):
         else:   # read-only: the statement does not speak about it; recorded in the distribution only
             tags['readonly'] = 'written' if touched else ('rejected' if outcome[0] == 'exc' else 'unwritten')
         # the Lean model's prediction for this wrapper
-        if valid is not None and 'res' in drv:
+        if (valid is not None or e['flow'] == 'zoom') and 'res' in drv:
             pred_ok = drv['res'] == 'ok' and drv.get('ret') == 'out'
             alt_ok = pin is not None and pin.get('res') == 'ok' and pin.get('ret') == 'out'
             real_ok = outcome[0] == 'ok' and _same_array(outcome[1][0] if isinstance(outcome[1], tuple) else outcome[1], out)
